@@ -34,12 +34,15 @@ def table_inputs():
     return out
 
 
+WITH_BUILDER = [False]
+
+
 def _work(items):
     tokharness.setup()
     out = []
     for text, ctx, skip in items:
-        r = tokharness.analyse(text, ctx, skip)
-        out.append((r["fail"], r["stats"]))
+        r = tokharness.analyse(text, ctx, skip, with_builder=WITH_BUILDER[0])
+        out.append((r["fail"], r["stats"], r.get("builder", [])))
     return out
 
 
@@ -63,14 +66,17 @@ def make_inputs(tier, seed, n_quick=60000, n_thorough=3000000):
     return items
 
 
-def run_stream(c, tier, seed, kinds, nontrivial_rule, n_quick=60000, n_thorough=3000000):
-    """c: vlib.Check; kinds: failure kinds of tokharness.analyse that count for this property"""
+def run_stream(c, tier, seed, kinds, nontrivial_rule, n_quick=60000, n_thorough=3000000, builder_tie=False):
+    """c: vlib.Check; kinds: failure kinds of tokharness.analyse that count for this property.
+    builder_tie: also run the extracted Builder/rendering model on every real token stream."""
+    WITH_BUILDER[0] = builder_tie
     st = tokharness.setup()
     if st["c"] is None:
         c.fail("the C tokenizer does not build or load: %s" % st["clog"][-300:], {"build": "ctokenizer"})
     items = make_inputs(tier, seed, n_quick, n_thorough)
     res = vlib.robust_map(_work, items, chunk=400, timeout=240)
     seen = set()
+    btie = []
     stats = {"nontext_inputs": 0, "resource": 0, "uri_context": 0, "skip_style_tags": 0}
     for (text, ctx, skip), r in zip(items, res):
         c.cov["evaluations"] += 1
@@ -79,7 +85,9 @@ def run_stream(c, tier, seed, kinds, nontrivial_rule, n_quick=60000, n_thorough=
                 c.fail("parsing %s: %s" % ({"CRASH": "terminated the interpreter", "TIMEOUT": "did not finish", "PYEXC": "raised in the harness"}[r[0]], r[1]),
                        {"text": text, "context": ctx, "skip_style_tags": skip, "outcome": r[0]})
             continue
-        fail, s = r
+        fail, s, bl = r
+        for which, enc, real in bl:
+            btie.append((text, which, enc, real))
         if s.get("nontext", 0) > 0 or any(ch in text for ch in "{[<&='"):
             if (text, ctx, skip) not in seen:
                 seen.add((text, ctx, skip))
@@ -91,6 +99,8 @@ def run_stream(c, tier, seed, kinds, nontrivial_rule, n_quick=60000, n_thorough=
             for msg in fail.get(k, []):
                 c.fail("%s: %s" % (k, msg), {"text": text, "context": ctx, "skip_style_tags": skip, "kind": k,
                                              "tokenizer": msg.split(" ")[0].rstrip(":")})
+    if builder_tie:
+        _builder_tie(c, btie)
     c.cov["distinct_nontrivial"] = len(seen)
     c.cov["rule"] = ("inputs: table-driven (every URI scheme x ':'/'://' x case x bracketed/free, every tag name of every class in open/close/"
                      "self-closing/unclosed/attribute forms x case, every named entity, numeric entities at the range boundaries, brace/bracket runs "
@@ -100,6 +110,37 @@ def run_stream(c, tier, seed, kinds, nontrivial_rule, n_quick=60000, n_thorough=
     c.cov["samples"] = [{"text": t, "context": cx, "skip_style_tags": sk} for (t, cx, sk) in items[-4:]]
     c.notes["stream"] = stats
     return items
+
+
+def _builder_tie(c, btie):
+    """real Builder + node rendering vs the extracted model on every real token stream"""
+    try:
+        model = vlib.model_run("builder", [b[2] for b in btie])
+    except Exception as e:  # noqa: BLE001
+        c.broken.append({"file": "coq/extract/builder_run", "line": 0, "statement": "build (extracted)", "error": str(e)})
+        return
+    dis = 0
+    obs = {"streams": 0, "in_image_of_flatten": 0, "rebuild_identity": 0, "wf_normal_forms": 0}
+    for (text, which, enc, real), m in zip(btie, model):
+        c.cov["traces_validated_against_impl"] += 1
+        mm = m.split(" | img=")[0].strip()
+        if mm != real.strip():
+            both_reject = mm.startswith("exc") and real.startswith("exc")
+            if not both_reject:
+                dis += 1
+                if dis <= 3:
+                    c.broken.append({"file": "correspondence Builder/rendering", "line": 0, "statement": "build / str_code (model tie)",
+                                     "error": "input %r (%s tokens): model %r vs implementation %r" % (text, which, mm[:300], real[:300])})
+        if " | img=" in m:
+            flags = dict(kv.split("=") for kv in m.split(" | ")[-1].split())
+            obs["streams"] += 1
+            obs["in_image_of_flatten"] += flags.get("img") == "1"
+            obs["rebuild_identity"] += flags.get("rb") == "1"
+            obs["wf_normal_forms"] += flags.get("wf") == "1"
+            if flags.get("img") != "1" or flags.get("rb") != "1":
+                c.notes.setdefault("streams_outside_flatten_image", []).append(text) if len(c.notes.get("streams_outside_flatten_image", [])) < 5 else None
+    c.notes["builder_model_disagreements"] = dis
+    c.notes["builder_observations"] = obs
 
 
 def replay_text(data, kinds):
